@@ -1,6 +1,7 @@
 import DmrVerif.Driver.Loop
 import DmrVerif.Driver.Vbptc
 
-/-! model driver for property C09 -/
+/-! model driver for property C09: the stateless entry points (`vb.*`) and histories of calls over the
+objects the caller holds (`vh.*` operations thread a `Vbptc.Store` through the lines of one run) -/
 
-def main : IO Unit := Dmr.Driver.runMain [Dmr.Driver.vbptcOp]
+def main : IO Unit := Dmr.Driver.runMainS Dmr.Driver.vbptcStep Dmr.Vbptc.Store.empty
